@@ -20,7 +20,14 @@ def gen_state(rng, ncell, box, kind=None, gamma=5. / 3.):
         return [rng.uniform(-1, 1) * scale for _ in range(3)]
     blocks = [dict(origin=ctr, sides=[1.0001 * s for s in sides], density=10 ** rng.uniform(18, 21), temperature=10 ** rng.uniform(1.5, 3.5),
                    velocity=vel(rng.choice([0., 30., 300., 3000.])))]
-    if kind in ("boxes", "vacuum", "shock"):
+    if kind == "cold":
+        # pressureless gas (T = 0 K exactly: rho > 0, P = 0, a legal state) embedded in dense warm gas (P up to tens of Pa)
+        blocks[0].update(density=10 ** rng.uniform(20, 21.3), temperature=10 ** rng.uniform(2.5, 3.5), velocity=vel(rng.choice([0., 0., 100.])))
+        for _ in range(rng.randint(1, 3)):
+            blocks.append(dict(origin=[anchor[i] + rng.uniform(.2, .8) * sides[i] for i in range(3)],
+                               sides=[rng.uniform(.25, .8) * sides[i] for i in range(3)], type=rng.choice(["cube", "cube", "sphere"]),
+                               density=10 ** rng.uniform(19, 21.3), temperature=0., velocity=vel(rng.choice([0., 0., 100., 1000.]))))
+    elif kind in ("boxes", "vacuum", "shock"):
         for _ in range(rng.randint(1, 5)):
             dens = 10 ** rng.uniform(9, 21) if kind != "vacuum" else rng.choice([0., 10 ** rng.uniform(3, 12), 10 ** rng.uniform(18, 21)])
             blocks.append(dict(origin=[anchor[i] + rng.uniform(.1, .9) * sides[i] for i in range(3)],
